@@ -4,6 +4,8 @@
 (*                                                                         *)
 (* Input IOEnv.OBS: ndjson, one line per program:                          *)
 (*   name   label of the program                                           *)
+(*   mut    the lambdas of the text are written `mutable` (rendering        *)
+(*          variant; only used to name the class of a deviation)            *)
 (*   prog   the item list written by Scopes.tla: every name token carries  *)
 (*          the id of the declaration the LANGUAGE binds it to             *)
 (*   toks   one record per name token of the rendered text:                *)
@@ -93,9 +95,29 @@ PosStr(p) == ToString(p[1]) \o ":" \o ToString(p[2])
 InnerFn(pr, i) == LET q == SelectSeq(OpenAt(pr, i), LAMBDA k : k \in {"func", "meth", "lambda"})
                   IN IF q = <<>> THEN "file" ELSE q[Len(q)]
 
+\* the closing item of the construct opened by item k
+CloseOf(pr, k) ==
+  LET RECURSIVE F(_, _)
+      F(j, depth) == IF j > Len(pr) THEN Len(pr) + 1
+                     ELSE IF pr[j].op = "close" THEN (IF depth = 0 THEN j ELSE F(j + 1, depth - 1))
+                     ELSE IF pr[j].op \in Openers THEN F(j + 1, depth + 1) ELSE F(j + 1, depth)
+  IN F(k + 1, 0)
+\* the item whose construct is the scope of a declaring token: the construct itself for parameters, init-captures and
+\* for-init declarations, the innermost open block-like construct for a local declaration; 0 for file / namespace / class scope
+OpenIdxAt(pr, i) ==
+  LET Step(acc, k) == IF pr[k].op = "close" THEN Front(acc) ELSE IF pr[k].op \in Openers THEN Append(acc, k) ELSE acc
+  IN FoldLeft(Step, <<>>, [k \in 1..(i - 1) |-> k])
+ScopeItem(pr, d) ==
+  IF d.s > 0 \/ pr[d.i].op = "for" THEN d.i
+  ELSE LET st == OpenIdxAt(pr, d.i) IN
+       IF st = <<>> \/ pr[st[Len(st)]].op \in {"ns", "class"} THEN 0 ELSE st[Len(st)]
+
 Judge(p) ==
   LET pr == p.prog
       T  == Toks(pr)
+      Kind(t) == IF p.mut /\ TokKind(pr, t) = "lambda-param" THEN "mutable-lambda-param" ELSE TokKind(pr, t)
+      \* the declaration d is written in a scope that has ended before token t
+      Ended(d, t) == d.role = "decl" /\ ScopeItem(pr, d) # 0 /\ t.i > CloseOf(pr, ScopeItem(pr, d))
       O(t) == p.toks[CHOOSE k \in DOMAIN p.toks : p.toks[k].i = t.i /\ p.toks[k].s = t.s]
       Pos(t) == <<O(t).line, O(t).col>>
       At(pos) == {t \in T : Pos(t) = pos}                       \* the token of the text at a position (at most one)
@@ -113,7 +135,7 @@ Judge(p) ==
       Expected(t) == IF RefMode THEN CL(t) ELSE {Pos(SpecDecl(t))}
       Judgeable(t) == IF RefMode THEN Cardinality(CL(t)) = 1 /\ (-1) \notin {q[1] : q \in CL(t)} ELSE TRUE
       Exp(t) == CHOOSE e \in Expected(t) : TRUE
-      KindAt(pos) == IF At(pos) # {} THEN TokKind(pr, CHOOSE t \in At(pos) : TRUE) ELSE "other"
+      KindAt(pos) == IF At(pos) # {} THEN Kind(CHOOSE t \in At(pos) : TRUE) ELSE "other"
       VarIds(t) == {o.varId : o \in CV(t)} \ {0}
 
       (* (2) RightVariable: the variable link *)
@@ -136,23 +158,35 @@ Judge(p) ==
       NotDistinct == {d \in T : d.role = "decl" /\ (d \in BadVar \/ \E q \in Shared : q[1] = d /\ q[2].role = "decl")}
       DeclOf(t) == IF At(Exp(t)) # {} THEN CHOOSE d \in At(Exp(t)) : TRUE ELSE t
       Root(t) == IF t \in NotDistinct THEN {t} ELSE IF Judgeable(t) /\ Expected(t) # {} /\ DeclOf(t) \in NotDistinct THEN {DeclOf(t)} ELSE {}
-      RootKey(d) == "declaration-not-distinct:" \o TokKind(pr, d)
+      RootKey(d) == "declaration-not-distinct:" \o Kind(d)
+      \* a token linked to a declaration whose scope has ended: one class per kind of the leaking declaration
+      LeakTo(t, pos) == At(pos) # {} /\ Ended(CHOOSE d \in At(pos) : TRUE, t)
+      LeakIds(t) == {d \in T : d.role = "decl" /\ VarIds(d) \cap VarIds(t) # {} /\ Ended(d, t)}
+
+      (* Rendering variant `mutable`: a lambda written `[..](int x) mutable {` is a construct of its own for cppcheck's *)
+      (* scope tracking; whatever goes wrong with variables in a program that contains one is ONE class (the program's *)
+      (* twin without `mutable` is judged in full by the other variant).                                                *)
+      MutParam == p.mut /\ \E i \in DOMAIN pr : pr[i].op = "lambda" /\ \E j \in DOMAIN pr[i].sub : pr[i].sub[j].form = "param"
+      MutKey == "mutable-lambda-with-parameters"
 
       VarItem(t) == [kind |-> "wrong-variable",
-                     key  |-> IF Root(t) # {} THEN RootKey(CHOOSE d \in Root(t) : TRUE)
-                              ELSE "wrong-variable:" \o TokKind(pr, t) \o "-in-" \o InnerFn(pr, t.i) \o ":expected=" \o KindAt(Exp(t)) \o ":got=" \o KindAt(GotVar(t)),
+                     key  |-> IF MutParam THEN MutKey ELSE IF Root(t) # {} THEN RootKey(CHOOSE d \in Root(t) : TRUE)
+                              ELSE IF LeakTo(t, GotVar(t)) THEN "leaked-scope:" \o KindAt(GotVar(t))
+                              ELSE "wrong-variable:" \o Kind(t) \o "-in-" \o InnerFn(pr, t.i) \o ":expected=" \o KindAt(Exp(t)) \o ":got=" \o KindAt(GotVar(t)),
                      what |-> "token " \o t.nm \o " at " \o PosStr(Pos(t)) \o " is linked to the variable declared at " \o PosStr(GotVar(t))
                               \o ", the language binds it to the declaration at " \o PosStr(Exp(t))]
       IdItem(t) == [kind |-> "wrong-varid",
-                    key  |-> IF Root(t) # {} THEN RootKey(CHOOSE d \in Root(t) : TRUE)
-                             ELSE "wrong-varid:" \o TokKind(pr, t) \o "-in-" \o InnerFn(pr, t.i) \o ":expected=" \o KindAt(Exp(t)),
+                    key  |-> IF MutParam THEN MutKey ELSE IF Root(t) # {} THEN RootKey(CHOOSE d \in Root(t) : TRUE)
+                             ELSE IF LeakIds(t) # {} THEN "leaked-scope:" \o Kind(CHOOSE d \in LeakIds(t) : TRUE)
+                             ELSE "wrong-varid:" \o Kind(t) \o "-in-" \o InnerFn(pr, t.i) \o ":expected=" \o KindAt(Exp(t)),
                     what |-> "token " \o t.nm \o " at " \o PosStr(Pos(t)) \o " has a varId different from the one of its declaration at " \o PosStr(Exp(t))]
       \* a shared varId is reported once per pair, unless one of the two tokens is already reported as wrongly linked
       SharedRep == {q \in Shared : q[1].role = "decl" /\ q[2] \notin BadVar /\ q[2] \notin BadId /\ q[1] \notin BadVar /\ q[1] \notin BadId
                                    /\ (q[2].role = "decl" => (q[1].i < q[2].i \/ (q[1].i = q[2].i /\ q[1].s < q[2].s)))}
       SharedItem(q) == [kind |-> "shared-varid",
-                        key  |-> IF Root(q[1]) \cup Root(q[2]) # {} THEN RootKey(CHOOSE d \in Root(q[1]) \cup Root(q[2]) : TRUE)
-                                 ELSE "shared-varid:" \o TokKind(pr, q[1]) \o ":with=" \o TokKind(pr, q[2]),
+                        key  |-> IF MutParam THEN MutKey ELSE IF Root(q[1]) \cup Root(q[2]) # {} THEN RootKey(CHOOSE d \in Root(q[1]) \cup Root(q[2]) : TRUE)
+                                 ELSE IF Ended(q[1], q[2]) THEN "leaked-scope:" \o Kind(q[1])
+                                 ELSE "shared-varid:" \o Kind(q[1]) \o ":with=" \o Kind(q[2]),
                         what |-> "declaration " \o q[1].nm \o " at " \o PosStr(Pos(q[1])) \o " and token " \o q[2].nm \o " at " \o PosStr(Pos(q[2]))
                                  \o " have the same varId but mean different declarations"]
 
